@@ -76,7 +76,8 @@ type run struct {
 	net      *quiet.Net
 	n        *quiet.Node
 	name     string
-	b        int
+	b        int // Config.EventBuffer
+	bq       int // Config.QueryBuffer (drawn independently)
 	dir      string
 	snap     string
 	nsnap    int
@@ -92,7 +93,7 @@ type run struct {
 func (r *run) create() {
 	nd, err := quiet.NewNode(r.net, r.name, nil, func(c *serf.Config) {
 		c.EventBuffer = r.b
-		c.QueryBuffer = r.b
+		c.QueryBuffer = r.bq
 		if r.withSnap {
 			c.SnapshotPath = r.snap
 		}
@@ -123,8 +124,8 @@ func prefill(path string, below int) {
 	}
 }
 
-func newRun(b, nc int, withSnap bool, fill int, dir string, id int, rng *rand.Rand) *run {
-	r := &run{net: quiet.NewNet(), b: b, withSnap: withSnap, dir: dir, qids: map[uint32]int{}, re: -1, rq: -1}
+func newRun(b, bq, nc int, withSnap bool, fill int, dir string, id int, rng *rand.Rand) *run {
+	r := &run{net: quiet.NewNet(), b: b, bq: bq, withSnap: withSnap, dir: dir, qids: map[uint32]int{}, re: -1, rq: -1}
 	r.net.Capture = false
 	r.name = "self-" + strconv.Itoa(rng.Intn(1000))
 	r.cont = contents(nc, rng)
@@ -242,7 +243,7 @@ func (r *run) state() map[string]interface{} {
 		}
 		eb = append(eb, sl)
 	}
-	qb := make([]slot, 0, r.b)
+	qb := make([]slot, 0, r.bq)
 	for _, s := range d.QueryBuf {
 		sl := slot{LT: -1, Xs: []int{}}
 		if !s.Nil {
@@ -502,8 +503,12 @@ func main() {
 		if _, ok := s.Steps[0]["fill"]; ok {
 			fill = s.Steps[0].Int("fill")
 		}
-		r := newRun(b, *nc, snap == 1, fill, *dir, s.ID, rng)
-		tr.Reset(s.ID, map[string]interface{}{"b": b, "snap": snap})
+		bq := b
+		if _, ok := s.Steps[0]["bq"]; ok {
+			bq = s.Steps[0].Int("bq")
+		}
+		r := newRun(b, bq, *nc, snap == 1, fill, *dir, s.ID, rng)
+		tr.Reset(s.ID, map[string]interface{}{"b": b, "bq": bq, "snap": snap})
 		for _, st := range s.Steps[1:] {
 			tr.Step(st, r.step(st))
 		}
